@@ -8,8 +8,8 @@ CRATE = "e_f80"
 DRIVER = "drv_f80"
 DRIVER_MODULE = "Driver.F80"
 PROPS = "RlibModel.Props.C18"
-PROFILES = ["release"]
-SHRINK_SEP = None
+PROFILES = ["release", "debug"]      # debug: unoptimised code around the asm blocks, on a reduced stream (harness_args)
+SHRINK_SEP = ";"                     # register programs `pg hdr ; op ; op ...` are shrunk op by op
 RULE = ("cases: every ordered pair of a boundary set B of f64 bit patterns (±0, min/max subnormal, 2^k and 2^k ± ulp for 40 exponents, "
         "long carry chains, huge/tiny exponents, ±inf, quiet/signalling NaN; quick: every pair of a one-third subset of B that always "
         "contains the zeros, infinities and NaNs, thorough: all of B x B) through + - * / (and the op= forms) and through "
@@ -18,7 +18,18 @@ RULE = ("cases: every ordered pair of a boundary set B of f64 bit patterns (±0,
         "is compared); random f64 patterns; random 80-bit operands (given as the ten raw bytes) with related exponents for "
         "cancellation / sticky-bit / overflow / underflow cases; a separate stream of encodings no operation produces (pseudo-denormal, "
         "unnormal, pseudo-NaN, pseudo-infinity) whose arithmetic is outside the property's domain (spec `any`, model still compared). "
-        "Compared: the ten result bytes exactly (any NaN as `nan`), booleans, Option<Ordering>; min/max/abs as values. "
+        "Wave 3: (F) a stream of EXACT ties and one-unit-beside-a-tie cases for + - (b = half an ulp of a), * ((2^63+x2^k)(2^63+y2^(62-k)), x y odd), "
+        "f80->f64 (discarded bits 100..0 / 011..1 / 100..1, also where the f64 result is subnormal and at the f64 overflow threshold), the f80 "
+        "gradual-underflow and overflow edges; (A B C E) register programs `pg`: four live f80 objects, every result stored and fed back: operators "
+        "by value and op=, the SAME object on both sides (x+x, x/x, x==x on one reference), neg abs min max, the f64 round trip through Into, "
+        "the seven relations, Copy / Clone::clone / Clone::clone_from into a used destination, ZERO / ONE / Default, f80_init() again mid-history; "
+        "styles: random, repeated squaring/halving/doubling (leaves the f64 range, reaches the f80 overflow and underflow limits), nine or more "
+        "compare-like calls followed by arithmetic (x87 stack / control word left behind), accumulate loops, signs of zeros; 40 long programs "
+        "(120..240 steps); 200 programs on a freshly spawned thread; 40 programs run by four threads at once (every run must give the answers of "
+        "the sequential run); `fm`: Display / Debug / Show / to_string with ten format specifications against std's text of the f64 value. "
+        "A second build profile (debug) runs a reduced stream. "
+        "Compared: the ten result bytes exactly (any NaN as `nan`), booleans, Option<Ordering>; min/max/abs as values; a register the property does "
+        "not fix bytewise (abs of a zero, min/max of two zeros or with a NaN) and everything computed from it is hidden (`*`) in view and spec. "
         "non-trivial = distinct in-domain case with at least one operand that is neither zero nor a NaN")
 ASSUMPTIONS = [
     "x86-64 with the default x87 control word (64-bit precision, round to nearest, exceptions masked); the crate does not build elsewhere",
@@ -26,7 +37,15 @@ ASSUMPTIONS = [
     "run; it is not verified",
     "the Lean model of rlib_f80 is hand-written; it is tied to the code by running both on the same cases",
     "the harness reads/writes the ten bytes of the private field with transmute_copy (observation only)",
-    "the harness calls f80_init() first (as the crate documents); a separate process without the call runs a small pre-init stream",
+    "the harness calls f80_init() first (as the crate documents); a separate process without the call runs a small pre-init stream "
+    "(arithmetic first; the register programs at its end may call f80_init() mid-history)",
+    "`pg` lines: S of a step is the specification of that step applied to the operands the MODEL holds (one state; prog_step_view / prog_run_view "
+    "prove view = S for every step); the bytes of a `loose` register are compared with the model only (raw), not with the specification",
+    "`fm` lines: the expected text is computed INSIDE THE HARNESS by std's formatting of the f64 value (`format!(spec, f64::from(x))`, for Show "
+    "`{:.*}` with ShowSettings::float_precision) - an oracle independent of the crate's fmt code; the f64 value itself is compared with the "
+    "model/spec (`f64=`). Debug may print either of f64's texts (`{:?}` or `{}`): the crate forwards to a `fmt` of f64",
+    "threads: a race is detected only when it manifests (4 threads x up to 4000 repetitions per `pg c` line); x87 state is per thread and "
+    "inherited at thread creation",
 ]
 TRUSTED_EXTRA = ["the CPU's x87 unit (differentially compared with the Lean soft-float, never proved)"]
 MANIFEST = {
@@ -36,7 +55,9 @@ MANIFEST = {
              "the operand classes (NaN unordered, -0 = +0, == consistent with partial_cmp). The meaning of `correctly rounded` is an exact "
              "soft-float; it is proved that its + - * / and f80->f64 equal the exact rational result rounded ONCE (roundRat: nearest, half-ulp, signed zeros, overflow, subnormals, inf/NaN tables), that the driver's independent fraction-arithmetic S equals the model M, and for the rounding: nearest/half-ulp, "
              "ties-to-even, monotonicity, exactness on representables and f64 -> f80 -> f64 = identity for every non-NaN f64 pattern are "
-             "proved. The x87 instructions are compared with that soft-float differentially on every check."),
+             "proved. Programs over four live objects whose results are fed back (operators, op=, neg abs min max, f64 round trip, relations, "
+             "clones, constants): the view of every model step equals the step's specification (prog_step_view, prog_run_view); `!=` is the "
+             "negation of `==` (ne_spec). The x87 instructions are compared with that soft-float differentially on every check."),
     "note": ("PARTIAL: what the FPU instructions actually do (fadd, fsub, fmul, fdiv, fchs, fld/fstp of both widths, fcomi/fucomi flags, fcmov) is "
              "MODELLED by the Lean soft-float and checked differentially on boundary-pair, chain and random cases (exact result bytes), not "
              "verified. Trusted: Lean kernel, axioms propext/Classical.choice/Quot.sound, the hand-written model, harness and driver plumbing, "
@@ -83,6 +104,12 @@ def extract(repo):
     params["max_select"] = (re.findall(r"fcmov\w+", m.group(2)) or ["?"])[0] if m else "?"
     params["manual_PartialEq"] = "impl PartialEq for f80" in src
     return params, []
+
+
+def harness_args(params, profile):
+    """The debug build (opt-level 0: different register allocation and stack layout around every asm block) runs a reduced
+    stream: all of B against the specials, the unary cases, 80-bit samples and the wave-3 streams in small sizes."""
+    return ["--stream", "debug"] if profile == "debug" else []
 
 
 def extra(ctx):
